@@ -44,6 +44,7 @@ type DBCfg struct {
 	ShuffleList         bool   `json:"shuffle_list,omitempty"`
 	BlockPropCollector  bool   `json:"block_props,omitempty"`
 	ConcRangeKeys       bool   `json:"conc_range_keys,omitempty"`
+	ExtIngest           bool   `json:"ext_ingest,omitempty"` // external (remote-backed) ingestion with synthetic suffixes
 	Clients             int    `json:"clients"`
 	// key space
 	Prefixes int `json:"prefixes"`
@@ -424,7 +425,7 @@ func mixProfile(profile string, g *gen) (mixW, bool) {
 	case "rangekey": // C08
 		return mixW{write: 40, ingest: 4, flush: 5, compact: 4, scan: 1, iter: 50, rangeKeys: true, iterOpsPerStep: 6}, true
 	case "masking": // C09
-		return mixW{write: 40, ingest: 3, flush: 6, compact: 4, iter: 50, rangeKeys: true, masking: true, iterOpsPerStep: 6}, true
+		return mixW{write: 40, ingest: 3, extIngest: 4, flush: 6, compact: 4, iter: 50, rangeKeys: true, masking: true, iterOpsPerStep: 6}, true
 	case "levels": // C15
 		return mixW{write: 50, ingest: 10, ingestExcise: 4, excise: 5, flush: 8, compact: 6, scan: 1, reopen: 1, wait: 1, rangeKeys: g.r.IntN(2) == 0}, true
 	case "close": // C47
@@ -653,6 +654,8 @@ func (e *dbEngine) Generate(profile string, seed uint64, tier string) (*Plan, er
 			g.cfg.ValueSepMin = pick(&g.r, []int{1, 16})
 		}
 		if profile == "masking" {
+			g.cfg.ExtIngest = true
+			g.cfg.FMV = 0
 			g.cfg.BlockPropCollector = true
 			if g.cfg.Suffixes < 2 {
 				g.cfg.Suffixes = 2 + g.r.IntN(3)
